@@ -73,7 +73,7 @@ CondLink(i, acts) == RuleLink(Cond(i), << >>, Op("unconditionalMatch", << >>, FA
 ChainLink(j)   == RuleLink(<<TK("ARGS_GET", s_c(j))>>, << >>, Op("unconditionalMatch", << >>, FALSE), FALSE, << >>)
 
 FlowTemplates(phases, maxChain) ==
-  [k : {"plain", "skip1", "skip2", "skipAfterM", "allow", "allowPhase", "allowRequest", "deny"}, p : phases, ch : 0..0]
+  [k : {"plain", "skip1", "skip2", "skipAfterM", "allow", "allowPhase", "allowRequest", "deny", "denySkip1", "denySkipAfterM"}, p : phases, ch : 0..0]
   \cup [k : {"plain", "skip1", "skipAfterM", "allow", "deny"}, p : phases, ch : 1..maxChain]
   \cup {[k |-> "markerM", p |-> 0, ch |-> 0]}
 
@@ -86,6 +86,8 @@ FlowActs(t) ==
     [] t.k = "allowPhase"   -> <<AAllow("phase")>>
     [] t.k = "allowRequest" -> <<AAllow("request")>>
     [] t.k = "deny"         -> <<A("deny")>>
+    [] t.k = "denySkip1"    -> <<ASkip(1), A("deny")>>              \* a rule that both interrupts and jumps
+    [] t.k = "denySkipAfterM" -> <<ASkipAfter("M"), A("deny")>>
     [] OTHER                -> << >>
 
 FlowRule(i, t) ==
@@ -102,6 +104,19 @@ FlowPicks(n, phases, maxChain, engines, slice, slices) ==
   IN [ts : {[i \in 1..n |-> IF i = 1 THEN t1 ELSE rest[i]] : t1 \in T1, rest \in [2..n -> Tm]},
       M : SUBSET FlowKeys(n, maxChain), e : engines]
 FlowScen(pk) == MkScen([i \in 1..Len(pk.ts) |-> FlowRule(i, pk.ts[i])], ReqOf(pk.M), pk.e)
+
+(***************************************************************************)
+(* Family "markers" (C08): n slots over {SecMarker M, skipAfter:M, plain}   *)
+(* in one phase - the same label declared several times, jumps between and *)
+(* after the declarations, plus one plain rule in the logging phase.       *)
+(***************************************************************************)
+MarkerPicks(n, phases, slice, slices) ==
+  LET K  == {"markerM", "skipAfterM", "plain"}
+      T1 == SliceOf(K \X (phases \ {5}), slice, slices)
+  IN [ts : {[i \in 1..n |-> IF i = 1 THEN [k |-> t1[1], p |-> t1[2], ch |-> 0] ELSE [k |-> rest[i], p |-> t1[2], ch |-> 0]] : t1 \in T1, rest \in [2..n -> K]},
+      M : SUBSET {s_m(i) : i \in 1..(n + 1)}, e : {"On"}]
+MarkerScen(pk) == MkScen([i \in 1..(Len(pk.ts) + 1) |-> IF i <= Len(pk.ts) THEN FlowRule(i, pk.ts[i]) ELSE FlowRule(i, [k |-> "plain", p |-> 5, ch |-> 0])],
+                         ReqOf(pk.M), pk.e)
 
 (***************************************************************************)
 (* Families for C01.                                                       *)
